@@ -71,7 +71,9 @@ pub fn main() -> i32 {
             crate::kit::panics::quiet(true);
             let seed: u64 = args[4].parse().unwrap();
             println!("START {seed}");
+            watchdog_arm(seed);
             let r = props::run_case(&args[1], &args[2], seed, false, &args[3]);
+            watchdog_disarm();
             println!("RESULT {}", serde_json::to_string(&r).unwrap());
             0
         }
@@ -98,6 +100,45 @@ pub fn main() -> i32 {
             }
         },
     }
+}
+
+/// Wall-clock budget of one simulated run.  A run which exceeds it is hung (simulated runs take
+/// milliseconds to seconds; nothing in them waits for real time): the worker aborts, which the
+/// parent reports as a `process_aborted` violation attributed to the announced seed.
+fn run_timeout_s() -> u64 {
+    std::env::var("VERIF_RUN_TIMEOUT_S").ok().and_then(|s| s.parse().ok()).unwrap_or(300)
+}
+
+static RUN_STARTED: std::sync::atomic::AtomicU64 = std::sync::atomic::AtomicU64::new(0);
+static RUN_SEED: std::sync::atomic::AtomicU64 = std::sync::atomic::AtomicU64::new(0);
+
+fn unix_now() -> u64 {
+    std::time::SystemTime::now().duration_since(std::time::UNIX_EPOCH).map(|d| d.as_secs()).unwrap_or(0)
+}
+
+fn watchdog_arm(seed: u64) {
+    use std::sync::atomic::Ordering::SeqCst;
+    static STARTED: std::sync::Once = std::sync::Once::new();
+    RUN_SEED.store(seed, SeqCst);
+    RUN_STARTED.store(unix_now(), SeqCst);
+    STARTED.call_once(|| {
+        let limit = run_timeout_s();
+        std::thread::Builder::new()
+            .name("watchdog".into())
+            .spawn(move || loop {
+                std::thread::sleep(std::time::Duration::from_secs(1));
+                let t = RUN_STARTED.load(SeqCst);
+                if t != 0 && unix_now().saturating_sub(t) > limit {
+                    eprintln!("watchdog: run of seed {} did not finish within {limit} s of wall-clock time (hang or deadlock in the code under test)", RUN_SEED.load(SeqCst));
+                    std::process::abort();
+                }
+            })
+            .expect("watchdog thread");
+    });
+}
+
+fn watchdog_disarm() {
+    RUN_STARTED.store(0, std::sync::atomic::Ordering::SeqCst);
 }
 
 /// Seed of the i-th run of a batch.
@@ -135,7 +176,9 @@ fn worker(a: &[String]) -> i32 {
             writeln!(o, "START {seed}").unwrap();
             o.flush().unwrap();
         }
+        watchdog_arm(seed);
         let mut r = props::run_case(engine, mode, seed, false, prop);
+        watchdog_disarm();
         if r.violations.iter().any(|v| &v.property == prop) {
             // Re-run with full log and write the replay file.
             r.replay = props::write_replay(engine, mode, seed, prop, &r);
@@ -170,67 +213,89 @@ pub fn run_batch(b: &Batch, prop: &str, base: u64, workers: usize) -> BatchOutco
     let t0 = Instant::now();
     let exe = std::env::current_exe().expect("current_exe");
     let workers = workers.min(b.runs.max(1) as usize).max(1);
-    let mut children = vec![];
-    for w in 0..workers {
-        let child = Command::new(&exe)
-            .args([
-                "worker",
-                b.engine,
-                b.mode,
-                prop,
-                &base.to_string(),
-                &w.to_string(),
-                &b.runs.to_string(),
-                &workers.to_string(),
-            ])
+    let spawn = |exe: &std::path::Path, first: u64| {
+        Command::new(exe)
+            .args(["worker", b.engine, b.mode, prop, &base.to_string(), &first.to_string(), &b.runs.to_string(), &workers.to_string()])
             .stdout(Stdio::piped())
             .stderr(Stdio::piped())
             .spawn()
-            .expect("spawn worker");
-        children.push(child);
-    }
+            .expect("spawn worker")
+    };
     let mut results = vec![];
     let mut aborted = vec![];
     let mut handles = vec![];
-    for mut c in children {
+    for w in 0..workers {
+        let exe = exe.clone();
+        let stride = workers as u64;
+        let first_child = spawn(&exe, w as u64);
+        let spawn_again = {
+            let (engine, mode, prop, runs) = (b.engine, b.mode, prop.to_string(), b.runs);
+            move |exe: &std::path::Path, first: u64| {
+                Command::new(exe)
+                    .args(["worker", engine, mode, &prop, &base.to_string(), &first.to_string(), &runs.to_string(), &stride.to_string()])
+                    .stdout(Stdio::piped())
+                    .stderr(Stdio::piped())
+                    .spawn()
+                    .expect("spawn worker")
+            }
+        };
         handles.push(std::thread::spawn(move || {
             let mut res = vec![];
-            let mut last_start: Option<u64> = None;
-            let so = c.stdout.take().unwrap();
-            let se = c.stderr.take().unwrap();
-            let eh = std::thread::spawn(move || {
-                let mut tail = std::collections::VecDeque::new();
-                for l in BufReader::new(se).lines().map_while(Result::ok) {
-                    if tail.len() > 40 {
-                        tail.pop_front();
-                    }
-                    tail.push_back(l);
-                }
-                tail.into_iter().collect::<Vec<_>>().join("\n")
-            });
-            for l in BufReader::new(so).lines().map_while(Result::ok) {
-                if let Some(s) = l.strip_prefix("START ") {
-                    last_start = s.trim().parse().ok();
-                } else if let Some(j) = l.strip_prefix("RESULT ") {
-                    match serde_json::from_str::<CaseResult>(j) {
-                        Ok(r) => {
-                            last_start = None;
-                            res.push(r)
+            let mut aborts: Vec<(u64, String)> = vec![];
+            let mut c = first_child;
+            // Index (within the batch) of the run the worker is at.
+            let mut first = w as u64;
+            loop {
+                let mut starts = 0u64;
+                let mut last_start: Option<u64> = None;
+                let so = c.stdout.take().unwrap();
+                let se = c.stderr.take().unwrap();
+                let eh = std::thread::spawn(move || {
+                    let mut tail = std::collections::VecDeque::new();
+                    for l in BufReader::new(se).lines().map_while(Result::ok) {
+                        if tail.len() > 40 {
+                            tail.pop_front();
                         }
-                        Err(e) => eprintln!("bad worker line: {e}"),
+                        tail.push_back(l);
+                    }
+                    tail.into_iter().collect::<Vec<_>>().join("\n")
+                });
+                for l in BufReader::new(so).lines().map_while(Result::ok) {
+                    if let Some(s) = l.strip_prefix("START ") {
+                        last_start = s.trim().parse().ok();
+                        starts += 1;
+                    } else if let Some(j) = l.strip_prefix("RESULT ") {
+                        match serde_json::from_str::<CaseResult>(j) {
+                            Ok(r) => {
+                                last_start = None;
+                                res.push(r)
+                            }
+                            Err(e) => eprintln!("bad worker line: {e}"),
+                        }
                     }
                 }
+                let status = c.wait().expect("wait");
+                let stderr = eh.join().unwrap_or_default();
+                if status.success() {
+                    break;
+                }
+                // The watchdog's line (if any) first: it names the cause.
+                let why = match stderr.lines().find(|l| l.starts_with("watchdog:")) {
+                    Some(l) => format!("{l}\n{status}: {stderr}"),
+                    None => format!("{status}: {stderr}"),
+                };
+                aborts.push((last_start.unwrap_or(0), why));
+                if starts == 0 || last_start.is_none() || aborts.len() >= 5 {
+                    break;
+                }
+                // Carry on after the run which took the worker down.
+                first += starts * stride;
+                c = spawn_again(&exe, first);
             }
-            let status = c.wait().expect("wait");
-            let stderr = eh.join().unwrap_or_default();
-            let ab = if !status.success() {
-                Some((last_start.unwrap_or(0), format!("{status}: {stderr}")))
-            } else {
-                None
-            };
-            (res, ab)
+            (res, aborts)
         }));
     }
+    let _ = &spawn;
     for h in handles {
         let (r, ab) = h.join().unwrap();
         results.extend(r);
